@@ -590,18 +590,48 @@ theorem foldl_const_max_le {α : Type} (l : List α) (c d : Nat) (hd : d ≤ c) 
   | nil => simpa
   | cons a l ih => simp only [List.foldl]; exact ih _ (by omega)
 
-/-- `select ⇄ operators`: at most three calls per operator of the QUERY, for any number `g` of named
-graphs in the dataset -/
-theorem select_depth_bounded (g : Nat) (a : Alg) : selectD g a ≤ 3 * a.height + 1 := by
-  induction a with
-  | bgp => simp [selectD]
-  | unsupported => simp [selectD]
-  | union l r ihl ihr => simp only [selectD, Alg.height]; omega
-  | graphVar i ih =>
+theorem graphVar_loop_le (g c : Nat) : (List.range g).foldl (fun d _ => max d c) 0 ≤ c :=
+  foldl_const_max_le (List.range g) c 0 (by omega)
+
+mutual
+/-- `select ⇄ operators ⇄ check_exists`: at most three calls per level of the QUERY (operators,
+expressions, EXISTS patterns), for any number `g` of named graphs in the dataset -/
+theorem select_depth_bounded (g : Nat) : ∀ a : Alg, selectD g a ≤ 3 * a.height + 1
+  | .bgp => by simp [selectD]
+  | .unsupported => by simp [selectD]
+  | .filter e i => by
+    have := check_exists_depth_bounded g e; have := select_depth_bounded g i
+    simp only [selectD, Alg.height]; omega
+  | .extend e i => by
+    have := check_exists_depth_bounded g e; have := select_depth_bounded g i
+    simp only [selectD, Alg.height]; omega
+  | .orderBy es i => by
+    have := checkArgsD_le g es; have := select_depth_bounded g i
+    simp only [selectD, Alg.height]; omega
+  | .union l r => by
+    have := select_depth_bounded g l; have := select_depth_bounded g r
+    simp only [selectD, Alg.height]; omega
+  | .graphVar i => by
+    have := select_depth_bounded g i
+    have := graphVar_loop_le g (selectD g i)
     simp only [selectD, Alg.height]
-    have := foldl_const_max_le (List.range g) (selectD g i) 0 (by omega)
     split <;> omega
-  | _ i ih => simp only [selectD, Alg.height]; omega
+  | .graphConst i => by have := select_depth_bounded g i; simp only [selectD, Alg.height]; omega
+  | .project i => by have := select_depth_bounded g i; simp only [selectD, Alg.height]; omega
+  | .distinct i => by have := select_depth_bounded g i; simp only [selectD, Alg.height]; omega
+  | .slice i => by have := select_depth_bounded g i; simp only [selectD, Alg.height]; omega
+/-- `check_exists`: one call per level of the expression, plus the `select` of an EXISTS pattern —
+bounded by the nesting of the query expression, independent of rows, statements and named graphs -/
+theorem check_exists_depth_bounded (g : Nat) : ∀ e : Expr, checkD g e ≤ 3 * e.height + 1
+  | .leaf => by simp [checkD]
+  | .exists p => by have := select_depth_bounded g p; simp only [checkD, Expr.height]; omega
+  | .node args => by have := checkArgsD_le g args; simp only [checkD, Expr.height]; omega
+theorem checkArgsD_le (g : Nat) : ∀ es : Exprs, checkArgsD g es ≤ 3 * es.height + 1
+  | .nil => by simp [checkArgsD]
+  | .cons e es => by
+    have := check_exists_depth_bounded g e; have := checkArgsD_le g es
+    simp only [checkArgsD, Exprs.height]; omega
+end
 
 mutual
 /-- the prettifier: at most six calls per level of ANYTHING it nests (quoted triple, collection,
@@ -861,6 +891,7 @@ theorem siteDepth_bounded (f : Fn) (cls : SiteClass) (h : cls ≠ .selfRecursive
   case ntWriteTermCycle =>
     have := nt_write_term_depth_bounded (famLiteral n); simp only [nesting_famLiteral] at this ⊢; exact this
   case selectCycle => exact select_depth_bounded n famQuery
+  case checkExists => exact check_exists_depth_bounded n famExpr
   case populateConvertCycle =>
     have := populate_convert_depth_bounded (famList n); simp only [nest_famList] at this ⊢; exact this
   case prettyWriteTerm => exact wTree_famArcs n
@@ -991,6 +1022,9 @@ example : (jsonify (famJNodes 3) 0 true).2 = 2 := by
   rw [jsonify]; simp [famJNodes, jsonify_nested]; decide
 example : convertD (.sub (.cons (.sub (.cons .leaf .nil)) (.cons .leaf .nil))) = 5 := by decide
 example : selectD 3 famQuery = 6 ∧ selectD 0 famQuery = 5 ∧ famQuery.height = 2 := by decide
+-- FILTER(?x = 1 || EXISTS { GRAPH ?g { … } }) over 3 named graphs
+example : selectD 3 (.filter (.node (.cons famExpr (.cons (.exists (.graphVar .bgp)) .nil))) .bgp) = 8 ∧
+    checkD 7 famExpr = 2 ∧ famExpr.height = 1 := by decide
 example : wTerm (chainPT 3) = 16 ∧ (chainPT 3).nestData = 0 ∧ (chainPT 3).nestAll = 3 := by decide
 example : wTree .atom (famArcs 4) = 7 := by decide
 example : wTerm ((chainPT 9).cut 2 0) = 11 ∧ ((chainPT 9).cut 2 0).anonNest = 2 := by decide
